@@ -4,6 +4,21 @@ that the manifest stays valid and consistent while checks are added)."""
 import json, sys
 
 CHECKS = {
+ "C06": ("exploration",
+         "runtime round-trip oracle (print -> kind parser -> == -> print) over grammar/mutated/corpus inputs and the API derivation closure, plus print-bucket equality check",
+         "Every value accepted by ParseSource/ParseFinalSource/ParseRemotePackage/ParseRegistryPackage from grammar-directed, mutated and corpus strings, and every value derived from those through Package/SourceAddr/Versioned/Unversioned/FinalSourceAddr/ResolveRelative*/MakeRemoteSource to depth 2, is printed, re-parsed and compared (type, ==, second print); values are bucketed by printed form and a bucket must be one ==-class. Held = held on every value observed (counts in the evidence).",
+         "Observes only the public API; == is taken as the library's equality. One recorded finding (edge-whitespace) is matched by witness classification.",
+         "DESIGN.md §5 C06"),
+ "C07": ("exploration",
+         "runtime policy predicate over accessors of every accepted remote address; grammar must-accept; exhaustive single-rule-violation table; constructor tampering",
+         "An independent policy predicate (type, scheme, userinfo, query arguments, archive form, sub-path segments) is evaluated on every remote address accepted by any route (4 string parsers and MakeRemoteSource) over grammar strings (which must be accepted), an exhaustive table of single-rule violations x spellings (which must be rejected), mutated/arbitrary strings, and (type,URL,sub-path) triples with one tampered part.",
+         "The predicate in props/c07.go is the reading of the documented policy; must-accept is limited to documented forms.",
+         "DESIGN.md §5 C07"),
+ "C19": ("exploration",
+         "watched worker processes: recovered panics, process death and watchdog on hostile inputs to every entry point",
+         "Hostile, mutated and random inputs are fed to each entry point inside watched worker processes; a recovered panic, a fatal runtime error (the driver attributes the death to the case in progress) or a case without progress for the watchdog period is a violation.",
+         "Only inputs generated are covered; hang detection uses a generous wall-clock watchdog confirmed by lack of case progress.",
+         "DESIGN.md §5 C19"),
  # id: (level category, technique, level text, level note, design ref)
  "C11": ("exploration",
          "runtime oracle: segment-stack reference vs real resolve functions, exhaustive small space + PRNG",
